@@ -448,7 +448,7 @@ DECODE_ONLY_OK = {
 }
 
 
-@rule("C05", "C05-L1", 40, "bit-field layout: for every field the encoder packs into a byte, the decoder extracts it from the same position with a mask that is aligned with its shift and wide enough for every value the encoder can put there; encoder masks cut no possible value; fields of one byte do not overlap")
+@rule("C05", "C05-L1", 40, "bit-field layout: for every field the encoder packs into a byte, the decoder extracts it from the same position with a mask that is aligned with its shift and wide enough for every value the encoder can put there; encoder masks cut no possible value; fields of one byte do not overlap", also=("C15",))
 def c05_l1(ctx):
     types = codec_types(ctx)
     CONST_ALTS.clear()
@@ -696,7 +696,7 @@ def _delegates(ctx, f, what, codec_names, depth=0):
     return out
 
 
-@rule("C05", "C05-L6", 30, "sibling agreement on nesting: the nested item types an encoder hands to their own encode are exactly those its decoder hands to their own decode (a decoder that re-implements an item's wire format by hand is not checked against that item's encoder)")
+@rule("C05", "C05-L6", 30, "sibling agreement on nesting: the nested item types an encoder hands to their own encode are exactly those its decoder hands to their own decode (a decoder that re-implements an item's wire format by hand is not checked against that item's encoder)", also=("C15",))
 def c05_l6(ctx):
     types = codec_types(ctx)
     if len(types) < 30:
